@@ -123,6 +123,21 @@ def run(res, a):
             jobs.append(lambda k=k, s=c12.go_source(nouts, stmts, rs), r=rs: bondgo("bondgo:prog%d" % k, s, r, False))
         for f in sorted(glob.glob(os.path.join(C.VERIF, "corpus/bondgo/*.go"))):
             jobs.append(lambda f=f: bondgo("bondgo-mpm:" + os.path.basename(f), open(f).read(), 8, True))
+
+        def multiasm(name, rsize):
+            """the multi abstract-assembly front-end of bondgo: programs of several processors and their bonds in one JSON file"""
+            d = tempfile.mkdtemp(dir=work)
+            k1, k2 = rnd.randrange(1, 60), rnd.randrange(1, 60)
+            aa = {"ProcProgs": ["rset r1 %d\nclr r2\ni2r r0 i0\nadd r0 r1\nr2o r0 o0\njz r2 2\n" % k1,
+                                "rset r1 %d\nclr r2\ni2r r0 i0\nadd r0 r1\nr2o r0 o0\njz r2 2\n" % k2],
+                  "Bonds": ["i0,p0i0", "p0o0,p1i0", "p1o0,o0"]}
+            open(os.path.join(d, "aa.json"), "w").write(json.dumps(aa))
+            rc, out = c07.run_tool([c07.tool("bondgo"), "-input-file", "aa.json", "-multi-abstract-assembly-input", "-register-size", str(rsize),
+                                    "-save-bondmachine", "bm.json"], d, 4)
+            js = c07.read(os.path.join(d, "bm.json"))
+            return (name, js.decode() if js else None, out[-300:] if not js else "")
+        for rs in ([8, 12, 24] if a.tier == "quick" else [8, 16, 32, 12, 24, 10, 48]):
+            jobs.append(lambda rs=rs: multiasm("bondgo-multiasm:rsize%d" % rs, rs))
         with ThreadPoolExecutor(max_workers=12) as ex:
             machines = list(ex.map(lambda j: j(), jobs))
         # sources that cannot fit
